@@ -35,7 +35,7 @@ def gen(rng, tier):
     for rep in range(reps):
         for be in ("asyncio", "trio"):
             for kind in KINDS:
-                for count in ([1] if tier == "quick" and kind not in ("stuck_forever", "idle_keepalive") else [1, 5]):
+                for count in ([1] if tier == "quick" and kind not in ("stuck_forever", "idle_keepalive") else [1, 5]) + ([20] if kind == "stuck_forever" else []):
                     yield {"family": "%s.x%d" % (kind, count), "backend": be, "kind": kind, "count": count, "trigger": "callable", "rep": rep}
             yield {"family": "max_requests.idle", "backend": be, "kind": "idle_keepalive", "count": 2, "trigger": "max_requests", "rep": rep}
 
